@@ -104,6 +104,10 @@ WITNESSES += [  # statements that carry trivia a coercion has to strip: trailing
     ('(yield a, b)', 'expr'), ('a if b else c, d', 'expr'), ('(a, b), c', 'expr'), ('*a, b', 'expr'), ('(*a, b), [*c]', 'expr'),
     ('del (a, b), c', 'stmt'), ('for a, b in c, d: pass', 'stmt'), ('k=(a, b)', 'keyword'), ('a, k=(b, c)', '_arglikes'),
     ('(a, b), *c', '_arglikes'), ('T: (int, str)', 'type_param'), ('a: (b, c)', 'arg'), ('a=(b, c), *d', 'arguments'),
+    # signed / complex number forms: which of them are value patterns is decided by the parts (real +- imaginary, sign only on a number)
+    ('-1 + 2j', 'expr'), ('-1j + 2j', 'expr'), ('-(3j) - (4j)', 'expr'), ('1j + 2j', 'expr'), ('-1j', 'expr'), ('-1.5 - 0j', 'expr'),
+    ('(-(1)) + (2j)', 'expr'), ('-True + 1j', 'expr'), ('+1 + 1j', 'expr'), ('-a + 1j', 'expr'), ('1 + 2', 'expr'), ('1 - -2j', 'expr'),
+    ('--1', 'expr'), ('-1 + 2j | 3', 'expr'), ('[-1j + 2j, -0 - 0j]', 'expr'), ('{-1 + 1j: a, -2j - 1j: b}', 'expr'),
     ('None, True', 'expr'), ("[None, 1, -1, 's', 1+2j, -1-2j]", 'expr'), ('None, -1, 1+2j', 'pattern'), ('_ as a', 'withitem'),
 ]
 
